@@ -35,7 +35,12 @@ R = Registry(
         "string names are applied last, _make_key_to_index drops None positions, and every lookup that reads a "
         "record's position raises for None (_key_not_found, _index_for_key, _metadata_for_keys); horizontally "
         "spliced metadata marks colliding keys ambiguous; (R4) an unknown key raises NoSuchColumnError; "
-        "_adapt_to_context matches the invoked statement's columns to records by position."
+        "_adapt_to_context matches the invoked statement's columns to records by position, the invoked statement's "
+        "objects overriding the cached statement's entries (judged by executing it on models of cached keymap / invoked "
+        "column list); (R5) result metadata is reused for later executions of a cached statement only when its records were "
+        "matched to the compiled columns by position: on every path of _merge_cursor_description through a generator that "
+        "matches by names read from cursor.description (or has no compiled columns) _safe_for_cache ends up false, it is "
+        "never true with driver_column_names, and compiled._cached_metadata is stored only under it."
     ),
     not_decided=(
         "which names / positions cursor.description reports for a statement, dialect name normalisation, label "
@@ -902,6 +907,6 @@ R.mutant("flag-in-a-local-by-name-cacheable", CUR, chain(
 R.mutant("benign-cache-store-guard-through-alias-and-early-exit", CUR,
          sub("                if metadata._safe_for_cache:\n                    compiled._cached_metadata = metadata\n",
              "                reusable = metadata._safe_for_cache\n                if reusable:\n                    compiled._cached_metadata = metadata\n"), None)
-R.mutant("benign-by-name-branch-tested-first", CUR,
+R.mutant("benign-textual-flag-through-a-constant-local", CUR,
          sub("                self._safe_for_cache = not driver_column_names\n                # textual positional case\n",
              "                positional_text = True\n                self._safe_for_cache = positional_text and not driver_column_names\n                # textual positional case\n"), None)
